@@ -444,6 +444,7 @@ class MethTr:
         self.nloop = self.ntry = self.nif = self.nfor = 0
         self.env = f'{self.g}_Env'
         self.depth = 0          # loop nesting (break / continue only inside)
+        self.objty = OBJ
 
     # ---------------- helpers
     def is_append(self, e):
@@ -516,8 +517,11 @@ class MethTr:
                 raise Unsupported('comparison chain')
             op, l, r = e.ops[0], e.left, e.comparators[0]
             if isinstance(op, (ast.Is, ast.IsNot)):
+                if isinstance(r, ast.Constant) and isinstance(r.value, bool):
+                    fn_ = 'op_is_bool' if isinstance(op, ast.Is) else 'op_is_not_bool'
+                    return f"(PyObj.app1 (PyObj.{fn_} {'true' if r.value else 'false'}) {self.E(l)})"
                 if not (isinstance(r, ast.Constant) and r.value is None):
-                    raise Unsupported('`is` with something other than None')
+                    raise Unsupported('`is` with something other than None / True / False')
                 return f"(PyObj.app1 PyObj.{'op_is_none' if isinstance(op, ast.Is) else 'op_is_not_none'} {self.E(l)})"
             names = {ast.Eq: 'op_eq', ast.NotEq: 'op_ne', ast.Lt: 'op_lt', ast.LtE: 'op_le', ast.Gt: 'op_gt',
                      ast.GtE: 'op_ge', ast.In: 'op_in', ast.NotIn: 'op_not_in'}
@@ -656,11 +660,42 @@ class MethTr:
             sep = A[0].value
             if n == 1 and len(sep) == 1:
                 return f"(PyObj.app1 (PyObj.meth_split_char {lean_char(sep)}) {recv})"
+            if n == 1:
+                return f"(PyObj.app1 (PyObj.meth_split_str {lean_chars(sep)}) {recv})"
             if n == 2 and isinstance(A[1], ast.Constant) and A[1].value == 1:
                 if len(sep) == 1:
                     return f"(PyObj.app1 (PyObj.meth_split1_char {lean_char(sep)}) {recv})"
                 return f"(PyObj.app1 (PyObj.meth_split1_str {lean_chars(sep)}) {recv})"
             raise Unsupported('split variant')
+        if m == 'split' and n == 1 and isinstance(A[0], ast.Constant) and isinstance(A[0].value, str) and len(A[0].value) > 1:
+            return f"(PyObj.app1 (PyObj.meth_split_str {lean_chars(A[0].value)}) {recv})"
+        if m == 'find' and n == 1:
+            return f"(PyObj.app2 PyObj.meth_find {recv} {self.E(A[0])})"
+        if m == 'find' and n == 2:
+            return f"(PyObj.app3 PyObj.meth_find_from {recv} {self.E(A[0])} {self.E(A[1])})"
+        if m == 'replace' and n == 2:
+            return f"(PyObj.app3 PyObj.meth_replace {recv} {self.E(A[0])} {self.E(A[1])})"
+        if m == 'format' and isinstance(f.value, ast.Constant) and isinstance(f.value.value, str):
+            parts, auto, explicit = [], 0, False
+            for lit, field, spec, conv in string.Formatter().parse(f.value.value):
+                if lit:
+                    parts.append(f"(PyObj.FmtPart.lit {lean_chars(lit)})")
+                if field is None:
+                    continue
+                if spec or conv:
+                    raise Unsupported('format field with a spec / conversion')
+                if field == '':
+                    if explicit:
+                        raise Unsupported('mixed automatic and explicit format fields')
+                    k, auto = auto, auto + 1
+                elif field.isdigit():
+                    if auto:
+                        raise Unsupported('mixed automatic and explicit format fields')
+                    k, explicit = int(field), True
+                else:
+                    raise Unsupported('named format field')
+                parts.append(f"(PyObj.FmtPart.arg {k})")
+            return ("(PyObj.format_ [" + ", ".join(parts) + "] [" + ", ".join(self.E(a) for a in A) + "])")
         raise Unsupported(f'method {m}/{n}')
 
     # ---------------- statements: Lean text of type PyObj.Stmt OBJ <Env>
@@ -674,7 +709,7 @@ class MethTr:
         return f"(fun fuel env => {text})"
 
     def sty(self):
-        return f"PyObj.Stmt {OBJ} {self.env}"
+        return f"PyObj.Stmt {self.objty} {self.env}"
 
     def S(self, s, ind):
         pad = '  ' * ind
@@ -728,7 +763,7 @@ class MethTr:
             self.depth += 1
             body = self.B(s.body, 1)
             self.depth -= 1
-            self.aux.append(f"def {self.g}_test{k} : PyObj.Expr {OBJ} {self.env} :=\n  fun fuel env => {test}")
+            self.aux.append(f"def {self.g}_test{k} : PyObj.Expr {self.objty} {self.env} :=\n  fun fuel env => {test}")
             self.aux.append(f"def {self.g}_body{k} : {self.sty()} :=\n{body}")
             self.aux.append(f"def {self.g}_loop{k} : {self.sty()} :=\n  PyObj.while_ {self.g}_test{k} {self.g}_body{k}")
             return f"{pad}{self.g}_loop{k}"
@@ -767,7 +802,7 @@ class MethTr:
                 bind = f'(some {self.setter(h.name)})' if h.name else 'none'
                 hs.append(f"   {{ classes := {classes}, bind := {bind}, body :=\n" + self.B(h.body, 3) + " }")
             self.aux.append(f"def {self.g}_try{k} : {self.sty()} :=\n{body}")
-            self.aux.append(f"def {self.g}_handlers{k} : List (PyObj.Handler {OBJ} {self.env}) :=\n  [\n" + ",\n".join(hs) + "\n  ]")
+            self.aux.append(f"def {self.g}_handlers{k} : List (PyObj.Handler {self.objty} {self.env}) :=\n  [\n" + ",\n".join(hs) + "\n  ]")
             return f"{pad}(PyObj.tryExcept {self.g}_try{k} {self.g}_handlers{k})"
         raise Unsupported(f'statement {type(s).__name__}')
 
@@ -790,7 +825,7 @@ class MethTr:
 
     def signature(self):
         ps = "".join(f" ({ident(p)} : PyObj.Val)" for p in self.params)
-        return f"def {self.g} (fuel : Nat){ps} (w : PyObj.World {OBJ}) : PyObj.Out {OBJ} :="
+        return f"def {self.g} (fuel : Nat){ps} (w : PyObj.World {self.objty}) : PyObj.Out {self.objty} :="
 
     def init_env(self):
         names = self.params + self.locals
@@ -950,6 +985,211 @@ def generate_classes(repo, outdir, report):
     return report
 
 
+
+# ================================================================================================
+# module-level functions of the legacy layers (runtime: PyObj with the attribute-less object `PyObj.NoObj`)
+# ================================================================================================
+# (module file, function) — callees before callers is not required (dependencies are followed)
+FUNCS = [
+    # C06: every helper of ebb_motion.py that transmits text
+    ('ebb_motion.py', 'doABMove'), ('ebb_motion.py', 'doTimedPause'), ('ebb_motion.py', 'doLowLevelMove'),
+    ('ebb_motion.py', 'doXYMove'), ('ebb_motion.py', 'doAbsMove'), ('ebb_motion.py', 'QueryPenUp'),
+    ('ebb_motion.py', 'QueryPRGButton'), ('ebb_motion.py', 'sendDisableMotors'), ('ebb_motion.py', 'sendEnableMotors'),
+    ('ebb_motion.py', 'query_enable_motors'), ('ebb_motion.py', 'query_steps'), ('ebb_motion.py', 'sendPenDown'),
+    ('ebb_motion.py', 'sendPenUp'), ('ebb_motion.py', 'PBOutConfig'), ('ebb_motion.py', 'PBOutValue'),
+    ('ebb_motion.py', 'TogglePen'), ('ebb_motion.py', 'setPenDownPos'), ('ebb_motion.py', 'setPenDownRate'),
+    ('ebb_motion.py', 'setPenUpPos'), ('ebb_motion.py', 'setPenUpRate'), ('ebb_motion.py', 'setEBBLV'),
+    ('ebb_motion.py', 'queryEBBLV'), ('ebb_motion.py', 'queryVoltage'), ('ebb_motion.py', 'servo_timeout'),
+    # C15: the legacy gates
+    ('ebb_serial.py', 'queryVersion'), ('ebb_serial.py', 'min_version'), ('ebb_serial.py', 'query_nickname'),
+    ('ebb_serial.py', 'write_nickname'), ('ebb_serial.py', 'reboot'), ('ebb_serial.py', 'bootload'),
+    ('ebb_serial.py', 'closePort'),
+    # C19: port discovery, both layers (`EBB3.find_first` is a method: see CLASSES)
+    ('ebb_serial.py', 'findPort'), ('ebb_serial.py', 'find_named_ebb'), ('ebb_serial.py', 'list_port_info'),
+    ('ebb_serial.py', 'listEBBports'), ('ebb_serial.py', 'list_named_ebbs'),
+    ('ebb3_serial.py', 'list_ebb_ports'), ('ebb3_serial.py', 'list_named_ebbs'), ('ebb3_serial.py', 'find_named'),
+]
+NOOBJ = 'PyObj.NoObj'
+IO_FUNCS = {('ebb_serial', 'command'): 'ebb_serial_command', ('ebb_serial', 'query'): 'ebb_serial_query'}
+
+
+class FuncTr(MethTr):
+    """a module-level function; `known`: (module stem, name) -> FunctionDef of every function of FUNCS"""
+
+    def __init__(self, mod, fn, known):
+        self.classes, self.c, self.fn, self.fields = {}, None, fn, []
+        self.mod = os.path.splitext(mod)[0]
+        self.known = known
+        self.g = f'{self.mod}_{fn.name}'
+        if fn.args.vararg or fn.args.kwarg or fn.args.kwonlyargs or fn.args.posonlyargs:
+            raise Unsupported('signature')
+        self.params = [a.arg for a in fn.args.args]
+        self.locals = []
+        self.rebound = set()
+        for x in sorted((x for x in ast.walk(fn) if isinstance(x, (ast.Name, ast.ExceptHandler))),
+                        key=lambda x: (x.lineno, x.col_offset)):
+            n = None
+            if isinstance(x, ast.Name) and isinstance(x.ctx, (ast.Store, ast.Del)):
+                n = x.id
+            elif isinstance(x, ast.ExceptHandler) and x.name:
+                n = x.name
+            if n is not None:
+                self.rebound.add(n)
+                if n not in self.params and n not in self.locals:
+                    self.locals.append(n)
+        for x in ast.walk(fn):
+            if isinstance(x, ast.Expr) and self.is_append(x.value):
+                self.rebound.add(x.value.func.value.id)
+        self.aux, self.deps, self.iodeps = [], [], []
+        self.nloop = self.ntry = self.nif = self.nfor = 0
+        self.env = f'{self.g}_Env'
+        self.depth = 0
+        self.objty = NOOBJ
+
+    def target(self, f):
+        """(module stem, name) of a call of a module-level function, or None"""
+        if isinstance(f, ast.Name) and f.id not in self.params and f.id not in self.locals:
+            return (self.mod, f.id)
+        d = dotted(f)
+        if d is not None and d.count('.') == 1 and isinstance(f.value, ast.Name) \
+                and f.value.id not in self.params and f.value.id not in self.locals:
+            return tuple(d.split('.'))
+        return None
+
+    def bind_args(self, e, dfn):
+        ps = [a.arg for a in dfn.args.args]
+        dmap = dict(zip(ps[len(ps) - len(dfn.args.defaults):], dfn.args.defaults))
+        bound = {}
+        if len(e.args) > len(ps):
+            raise Unsupported('too many arguments')
+        for p_, a in zip(ps, e.args):
+            bound[p_] = self.E(a)
+        for k in e.keywords:
+            if k.arg not in ps or k.arg in bound:
+                raise Unsupported('bad keyword')
+            bound[k.arg] = self.E(k.value)
+        args = []
+        for p_ in ps:
+            if p_ in bound:
+                args.append(bound[p_])
+            elif p_ in dmap and isinstance(dmap[p_], ast.Constant):
+                args.append(self.const(dmap[p_].value))
+            else:
+                raise Unsupported(f'missing argument {p_}')
+        return args
+
+    def call(self, e):
+        t = self.target(e.func)
+        if t in IO_FUNCS:
+            # signature of ebb_serial.command / query: (port_name, cmd, verbose=True)
+            sig = ast.parse('def f(port_name, cmd, verbose=True): pass').body[0]
+            args = self.bind_args(e, sig)
+            g = IO_FUNCS[t]
+            if g not in self.iodeps:
+                self.iodeps.append(g)
+            return f"(PyObj.ioCall3 ({g} fuel) " + " ".join(args) + ")"
+        if t in self.known:
+            dfn = self.known[t]
+            args = self.bind_args(e, dfn)
+            if len(args) > 3:
+                raise Unsupported('more than three arguments in a function call')
+            g = f'{t[0]}_{t[1]}'
+            if g == self.g:
+                raise Unsupported('recursive function')
+            if g not in self.deps:
+                self.deps.append(g)
+            return f"(PyObj.mcall{len(args)} ({g} fuel)" + "".join(" " + a for a in args) + ")"
+        return MethTr.call(self, e)
+
+
+def generate_functions(repo, outdir, report):
+    trees, known = {}, {}
+    for mod, name in FUNCS:
+        if mod not in trees:
+            try:
+                trees[mod] = ast.parse(open(os.path.join(repo, 'plotink', mod)).read())
+            except (SyntaxError, OSError):
+                trees[mod] = None
+        if trees[mod] is not None:
+            for n in trees[mod].body:
+                if isinstance(n, ast.FunctionDef) and n.name == name:
+                    known[(os.path.splitext(mod)[0], name)] = n
+    names = []
+    for mod, name in FUNCS:
+        stem = os.path.splitext(mod)[0]
+        g = f'{stem}_{name}'
+        names.append(g)
+        fn = known.get((stem, name))
+        status, deps, iodeps, defaults, params = 'ok', [], [], {}, []
+        if fn is None:
+            status = 'missing'
+            code = f"def {g}_missing : Bool := true"
+        else:
+            params = [a.arg for a in fn.args.args]
+            for p, d in zip(params[len(params) - len(fn.args.defaults):], fn.args.defaults):
+                defaults[p] = ast.unparse(d)
+            try:
+                tr = FuncTr(mod, fn, known)
+                code = tr.translate()
+                deps, iodeps = tr.deps, tr.iodeps
+            except Unsupported as ex:
+                status = f'unsupported: {ex}'
+                try:
+                    code = FuncTr(mod, fn, known).stub()
+                except Unsupported:
+                    code = f"def {g}_missing : Bool := true"
+        text = (f"-- GENERATED by translator/pyio2lean.py from plotink/{mod}:{name}. Do not edit.\n"
+                + "import Plotink.PyObj\n" + "".join(f"import Plotink.Gen.{d}\n" for d in iodeps + deps)
+                + "namespace Plotink\nnamespace Gen\nset_option linter.unusedVariables false\n\n"
+                + code + "\n\nend Gen\nend Plotink\n")
+        out = os.path.join(outdir, f"{g}.lean")
+        old = open(out).read() if os.path.exists(out) else None
+        if old != text:
+            with open(out, 'w') as f:
+                f.write(text)
+        report[g] = {'module': mod, 'function': name, 'layer': 'PyObj/NoObj', 'status': status, 'deps': iodeps + deps,
+                     'params': params, 'defaults': defaults, 'sha256': hashlib.sha256(text.encode()).hexdigest(),
+                     'changed': old is not None and old != text}
+    # dispatch by generated name (for the driver); trailing parameters with constant defaults may be omitted
+    alts, imps = [], []
+    for (mod, name), g in zip(FUNCS, names):
+        fn = known.get((os.path.splitext(mod)[0], name))
+        if fn is None or not report[g]['status'].startswith(('ok', 'unsupported')):
+            continue
+        if report[g]['status'] != 'ok' and '_missing' in open(os.path.join(outdir, g + '.lean')).read():
+            continue
+        imps.append(g)
+        ps = [a.arg for a in fn.args.args]
+        dfl = fn.args.defaults
+        ndef = len(dfl) if all(isinstance(d, ast.Constant) for d in dfl) else 0
+        for k in range(len(ps) - ndef, len(ps) + 1):
+            pat = "[" + ", ".join(f"a{i}" for i in range(k)) + "]"
+            rest = []
+            for i2 in range(k, len(ps)):
+                v = dfl[i2 - (len(ps) - len(dfl))].value
+                rest.append("PyObj.Val.none" if v is None else
+                            f"(PyObj.Val.bool {'true' if v else 'false'})" if isinstance(v, bool) else
+                            f"(PyObj.Val.int ({v}))" if isinstance(v, int) else
+                            f"(PyObj.Val.str {lean_chars(v)})")
+            call = " ".join([g, "fuel"] + [f"a{i}" for i in range(k)] + rest + ["w"])
+            alts.append(f'  | "{g}", {pat} => some ({call})')
+    code = ("/-- call of a regenerated module-level function by its generated name -/\n"
+            f"def legacy_dispatch (fuel : Nat) (name : String) (args : List PyObj.Val) (w : PyObj.World {NOOBJ}) :\n"
+            f"    Option (PyObj.Out {NOOBJ}) :=\n  match name, args with\n" + "\n".join(alts) + "\n  | _, _ => none\n\n"
+            "def legacy_functions : List String :=\n  [" + ", ".join(f'"{g}"' for g in imps) + "]")
+    text = ("-- GENERATED by translator/pyio2lean.py from the module-level functions of FUNCS. Do not edit.\n"
+            + "import Plotink.PyObj\n" + "".join(f"import Plotink.Gen.{g}\n" for g in imps)
+            + "namespace Plotink\nnamespace Gen\nset_option linter.unusedVariables false\n\n" + code + "\n\nend Gen\nend Plotink\n")
+    out = os.path.join(outdir, "legacy_dispatch.lean")
+    old = open(out).read() if os.path.exists(out) else None
+    if old != text:
+        with open(out, 'w') as f:
+            f.write(text)
+    report['legacy_dispatch'] = {'module': '*', 'status': 'ok', 'deps': imps,
+                                 'sha256': hashlib.sha256(text.encode()).hexdigest(), 'changed': old is not None and old != text}
+    return report
+
+
 def gen_name(mod, name):
     return f"{os.path.splitext(mod)[0]}_{name}"
 
@@ -998,6 +1238,7 @@ def generate(repo, outdir):
         report[g] = {'module': mod, 'function': name, 'status': status, 'deps': [], 'defaults': defaults,
                      'sha256': hashlib.sha256(text.encode()).hexdigest(), 'changed': old is not None and old != text}
     generate_classes(repo, outdir, report)
+    generate_functions(repo, outdir, report)
     with open(os.path.join(outdir, 'io_report.json'), 'w') as f:
         json.dump(report, f, indent=1, sort_keys=True)
     return report
